@@ -8,7 +8,7 @@ F = "backend/seqfileparser.py"
 
 MUTANTS = [
     # ---- C14
-    ("C14", "strip_only_newline", F, "            line = line.strip()", "            line = line.rstrip('\\n')"),
+    ("C14", "line_not_stripped", F, "            line = line.strip()", "            line = line"),
     ("C14", "digit_zero_not_skipped", F, 'elif i in "1234567890":', 'elif i in "123456789":'),
     ("C14", "second_header_accepted", F, "                if header:", "                if False:"),
     ("C14", "two_stars_accepted", F, "        if number_of_asterisk > 1:", "        if number_of_asterisk > 2:"),
